@@ -26,7 +26,8 @@ def run : Runner
     let rejectedOwn := match res.splitOn " " with
       | [_, _, ex] => ex.startsWith "nil/"
       | _ => false
-    let prop := if !distinct && rejectedOwn && leaves.length == n && n > 0 then
+    -- only when the MODEL's extraction of the model's own proof is refused as well (equal siblings really occur)
+    let prop := if !distinct && rejectedOwn && (extractTok msg).startsWith "nil/" && leaves.length == n && n > 0 then
         "violated:built proof rejected by extraction (equal sibling hashes, CVE-2012-2459 guard)"
       else if !distinct || leaves.length != n then "-" else
       match res.splitOn " " with
